@@ -22,7 +22,7 @@
                                DepthLimit: property C07)
      no_retyped_variant R T tv no union variant the reader knows arrives with another wire type -- finding F-08a: the
                                union template matches on the id only; refuted without it (C08_union_retyped_refuted). *)
-From PVGen Require Import Gen GenSpec EvoSpec Proofs.EvoBase Proofs.EvoP Proofs.EvoTopP Proofs.EvoErrP Proofs.EvoSkipP.
+From PVGen Require Import Gen GenSpec EvoSpec Proofs.EvoBase Proofs.EvoP Proofs.EvoTopP Proofs.EvoErrP Proofs.EvoDeclP Proofs.EvoSkipP.
 From PV Require Import Proofs.HeaderP.
 Open Scope Z_scope.
 
@@ -173,3 +173,22 @@ Theorem C08_elem_retyped_refuted :
       = Ok (GStruct [(1, GI32 7); (4, GList [GI32 2; GI32 1633812480])] [], mkS [x01; x63; x00] r0).
 Proof. exact elem_retyped_refuted. Qed.
 Print Assumptions C08_elem_retyped_refuted.
+
+(* the Ok side of the specification, independently of the decoder model's helpers (match_field / init_var / finish_fields):
+   a struct view consists, per declared field in declaration order, of the view of the LAST wire field that carries it
+   (same id, declared wire type: EvoSpec.last_carried / carries), else its IDL default, else nothing *)
+Theorem C08_view_declarative : forall R, wf_schema R = true -> forall t n dfs kp ia fs g,
+  resolve R t = TyRef n -> lookup R n = Some (DStruct dfs kp ia) ->
+  view R t (VStruct fs) = Ok g ->
+  g = GStruct (flat_map (decl_field R fs) dfs) [].
+Proof. exact view_declarative. Qed.
+Print Assumptions C08_view_declarative.
+
+Theorem C08_last_carried_is_last : forall R f fs x, last_carried R f fs = Some x ->
+  exists a b id, fs = a ++ (id, x) :: b /\ carries R f (id, x) = true /\ existsb (carries R f) b = false.
+Proof. exact last_carried_spec. Qed.
+Print Assumptions C08_last_carried_is_last.
+
+Theorem C08_last_carried_none : forall R f fs, last_carried R f fs = None -> existsb (carries R f) fs = false.
+Proof. exact last_carried_none. Qed.
+Print Assumptions C08_last_carried_none.
